@@ -102,6 +102,8 @@ func famHist(out string) {
 			// one long history per run is enough: the stretch to height 440
 			if i == 11 {
 				p.Steps, p.PBadTx, p.PCorrupt, p.PFork, p.PReorg, p.DumpEvery, p.Crashes, p.Scenario = 4, 0, 0, 0, 0, 1000, 0, "h440"
+			} else {
+				p.Steps, p.PBadTx, p.PCorrupt, p.PFork, p.PReorg, p.Scenario = 24, 0, 0, 5, 5, "badtxsweep"
 			}
 		}
 		// one history in twelve (quick) is replayed on the real LMDB back-end
